@@ -43,10 +43,12 @@ CHECKS = {
             '4 C05'),
     'C06': (MC, BFS + 'invariant on views / parents / serialised multiset in every reached state', 'Same exploration as C01 plus a forward-focused profile (multi-leaf symbols and choice heads, deeper) and an unchecked-element profile; in every '
             'reached state (including after failed calls) both child views must equal the reference list (identity-wise), parents must be '
-            'right, removed children orphaned, and the output must contain each child once.', NOTE, '4 C06'),
+            'right, removed children orphaned, and the output must contain each child once. A toggle profile switches xsd_check off and on '
+            'through the public setter between operations.', NOTE, '4 C06, 12.1'),
     'C07': (MC, BFS + 'oracle: exhaustive completion search on the reference automaton after every successful addition',
             'Every successful add / forward add / dot set reached by the exploration (incl. a deeper forward-focused profile) must leave a multiset of children that some '
-            'schema-valid word can still contain (search over NFA state sets x remaining multiset, exhaustive).', NOTE, '4 C07'),
+            'schema-valid word can still contain (search over NFA state sets x remaining multiset, exhaustive). Thorough adds tail profiles: '
+            'every state reachable by successful additions alone (5-7 deep) gets every operation once.', NOTE, '4 C07, 12.1'),
     'C08': (MC, 'model-driven: documents enumerated from the reference model per class (values, attributes, words, embeddings) '
                 'built through the API, written, re-parsed and compared as typed infosets; second round trip byte-compared',
             'Every class with every accepted value shape, every attribute with representative values, every content-model word up to '
@@ -56,25 +58,29 @@ CHECKS = {
                 'the JDK validator, parsed by the library; 8 mutation operators for the no-silent-loss half',
             'Per declaration: minimal document, words up to length 2/3, every attribute incl. xml:/xlink: forms, numeric spellings, '
             'pretty-printed variants, pinned real-world files; valid input must be read back as the same typed infoset, mutated input '
-            'must raise or keep every item.', 'Mutations at the root and its children only. JDK decides validity of generated inputs.', '4 C09'),
+            'must raise or keep every item. The transition-cover and pumped-cycle words of each content-model DFA (length <= 9) are generated '
+            'as documents too; the key of an altered document contains the first difference.', 'Mutations at the root and its children only. JDK decides validity of generated inputs.', '4 C09, 12.1'),
     'C17': ('fault_enumeration', 'fault-point enumeration: every node failing its check and an exception injected at every k-th call of the '
             'functions write() passes through, x 3 destination states; 4 default-encoding configurations in subprocesses',
             'Every way the final check can fail on a complete score and every injected fault index is executed against an absent, empty '
             'and pre-filled destination; the destination bytes must be unchanged. Encoding independence is compared across UTF-8, the '
-            'real C locale and emulated Latin-1/cp1252 defaults.', 'Latin-1/cp1252 emulated by wrapping open() (locales not installed).', '4 C17'),
+            'real C locale (ASCII stdout/stderr included) and emulated Latin-1/cp1252 defaults, on a document with padded non-ASCII values; '
+            'bytes written to stdout/stderr are part of the compared result.', 'Latin-1/cp1252 emulated by wrapping open() (locales not installed).', '4 C17, 12.1'),
     'C20': (MC, 'stateless schedule enumeration under a sys.settrace scheduler: one pre-emption of thread A before every library line event '
                 '(quick: first 2 executions of every distinct line), thread B to completion in the gap, fork per schedule from a pristine parent',
             'All single-pre-emption schedules of two threads building elements of the same / related classes, with the lazily built class '
-            'tables empty at the start of every execution; each thread must obtain its solo result.',
-            'Pre-emption bound 1, line granularity, two threads.', '4 C20'),
+            'tables empty at the start of every execution; each thread must obtain its solo result. Parser threads (parse_musicxml of the same '
+            'score with fractional / integral spellings) are a scenario too; a schedule that does not finish within 120 s is a violation.',
+            'Pre-emption bound 1, line granularity, two threads.', '4 C20, 12.1'),
     'C10': (MC, BFS + 'deviation = failing call; observational fingerprint (views, attributes, value, serialisation verdict, '
             'acceptance of every next symbol) compared before/after every failing call', 'Every failing call met (alphabet arguments, '
             'out-of-alphabet arguments, failing attribute/value assignments, refused serialisations) is followed by a fingerprint '
-            'comparison computed by replay on fresh objects.', NOTE + ' Fingerprint depth k=1.', '4 C10'),
+            'comparison computed by replay on fresh objects; the fingerprint also contains what a later removal of each held child does.', NOTE + ' Fingerprint depth k=1.', '4 C10, 12.1'),
     'C11': (MC, BFS + 'differential oracle: fingerprint after each removal vs a rebuilt twin holding the remaining children',
             'Every successful remove / xml_x=None in the add/remove exploration is compared with a fresh twin built from the remaining '
             'children in the same relative order (forward arguments preserved). Part 2 (model-driven): every transition-cover / pumped word '
-            'accepted in document order x every position removed, compared with the twin.', NOTE + ' Fingerprint depth k=1.', '4 C11'),
+            'accepted in document order x every position removed, compared with the twin. Thorough adds a tail profile with forward placements '
+            'for the five types with repeated names (states five additions deep, every removal judged). Keys carry forward placements.', NOTE + ' Fingerprint depth k=1 plus removal probes.', '4 C11, 12.1'),
     'C12': (MC, 'all multisets with a unique arrangement x all distinct permutations replayed; additions-only BFS with exhaustive '
                 'completion search for every rejection',
             'Part (a) enumerates every multiset (size by budget) whose reference automaton has exactly one arrangement and replays every '
@@ -83,21 +89,24 @@ CHECKS = {
                 'equality, plus order-independence of all acceptance verdict tables against one pristine process per class',
             'Isolation is judged on the whole object graph reachable from the untouched instance and on the complete verdict tables of '
             'all 441 classes under sorted / reversed / post-workload orders; B also constructed unchecked and switched on; a structural digest '
-            'of the shared container templates; trees returned by the parser share nothing.', 'Merge shapes before/inside/after/toggled only; alphabet capped.', '4 C13'),
+            'of the shared container templates; trees returned by the parser share nothing and do not depend on what was parsed before '
+            '(pristine child vs after spelling variants); verdict tables include the emitted text, probe order alternating between classes.', 'Merge shapes before/inside/after/toggled only; alphabet capped.', '4 C13, 12.1'),
     'C14': (MC, BFS + 'deepcopy in every reached state, then every single mutation on either side; attribute recipes x check flag x nesting',
             'Copies are compared with the original in every state of the structural exploration and for every attribute recipe '
             '(keyword, dot, overwrite, removal) of every class; aliasing is probed by mutating one side and re-observing the other.',
             NOTE + ' Removal histories are left to C11.', '4 C14'),
     'C15': (MC, 'lock-step twin exploration: all shortcut-operation sequences up to depth 2/3 vs the explicit API; all attribute '
                 'sequences of length <= 2', 'Same outcome class and serialisation at every step; read-back through xml_* and dot '
-            'attributes compared with the serialised order / stored values.', 'The explicit twin encodes the documented mapping.', '4 C15'),
+            'attributes compared with the serialised order / stored values. Part 3: every state reached by <= 2/3 successful explicit additions '
+            '(forward placements included) x every shortcut on a held name; reads must address the same child as find_child on the twin.', 'The explicit twin encodes the documented mapping.', '4 C15, 12.1'),
     'C16': (MC, 'all strings up to length 2/3 over a markup/whitespace/non-BMP alphabet x all text and attribute hosts; '
                 + BFS + 'to_string (element and child) as operations with fingerprint comparison',
             'Escaping is decided by re-parsing with xml.etree; purity by comparing the fingerprint of histories with and without the '
             'interposed serialisation; subtrees are compared alone vs nested.', NOTE, '4 C16'),
     'C18': (MC, 'all words (valid or not) up to a length bound on unchecked instances + all (parent, child) flag assignments',
             'Unchecked elements must accept everything in insertion order and agree byte-for-byte with checked twins on valid words; '
-            'checked children stay checked inside unchecked parents and vice versa.', NOTE, '4 C18'),
+            'checked children stay checked inside unchecked parents and vice versa (incl. three levels: checked root > unchecked > incomplete '
+            'checked descendant must be refused from the root); an element switched on through the setter equals its checked twin.', NOTE, '4 C18, 12.1'),
     'C19': (MC, BFS + 'monitor on every call: exception class/site, captured stdout/stderr, per-call alarm; out-of-alphabet arguments included',
             'Every call of the misuse exploration (foreign elements, non-elements, None, detached children, bad forward indices, both '
             'intelligent_choice values) must succeed or raise a documented type, silently (warnings count as output). Part 2: every simple type x '
